@@ -83,16 +83,19 @@ def Seq.getProd (count x : Expr) : Seq → Except Err Expr
 
 /-- `_process_repeated_resources`, given the compiled children as (name, [(resource name, type)]): after the fix it only
     looks at names and types; the child's compiled values are referred to by name -/
+def repResourceOK (childName : String) (childRes : List (String × ResTy)) (r : Resource) : Bool :=
+  (childRes.any fun x => x.1 = r.name) &&
+  (match r.value with
+   | .sym s => s == childName ++ "." ++ r.name
+   | _ => false)
+
 def processRepeatedResources (rep : Repetition) (resources : List Resource) (children : List (String × List (String × ResTy))) :
     Except Err (List Resource) :=
   match children with
-  | [(childName, childRes)] => do
-    for r in resources do
-      if !(childRes.any fun x => x.1 = r.name) then throw (.internal "AssertionError")
-      match r.value with
-      | .sym s => if s ≠ childName ++ "." ++ r.name then throw (.internal "AssertionError")
-      | _ => throw (.internal "AssertionError")
-    childRes.foldlM (fun (acc : List Resource) nt => do
+  | [(childName, childRes)] =>
+    -- the two `assert`s of the loop over the wrapper's own resources
+    if !(resources.all (repResourceOK childName childRes)) then throw (.internal "AssertionError")
+    else childRes.foldlM (fun (acc : List Resource) nt => do
       let ref := Expr.sym (childName ++ "." ++ nt.1)
       match nt.2 with
       | .additive => pure (Resource.set acc ⟨nt.1, nt.2, ← rep.seq.getSum rep.count ref⟩)
